@@ -94,6 +94,9 @@ def parse_spec(path):
             continue
         if s.startswith("@") and not s.startswith("@ghost") and stack and stack[-1].kind == "expand":
             stack.pop()
+        if s == "@endexpand":
+            cur_fn = None
+            continue
         if s.startswith("@module"):
             parts = s.split()
             cur_mod = Section("module", parts[1], ln)
